@@ -334,7 +334,7 @@ def c20_run(prop, tier, seed):
     build_sched()
     sizes = ["1", "2", "3"]
     cons = ["g", "1", "2", "3"]
-    names = ["instances"]
+    names = ["instances", "instances-pools", "instances-pools-rev"]
     for prog in ("tc", "scan", "lat", "init"):
         for c in cons:
             for r1 in sizes:
